@@ -178,6 +178,19 @@ class Prop:
                 if deferred_ok and d["dispatch"] == "same" and c.random() < 0.35:
                     d["async"] = True
             dyn.append(d)
+        # names that exist only through a wildcard definition ('w_ = Any()'): they come
+        # into being at their first use; only the all-trait handlers apply to them
+        for j in range(c.choice([0, 0, 0, 1, 2])):
+            traits.append({"name": "w_%d" % j, "kind": "Any", "mode": "equality", "wild": True})
+        if any(t.get("wild") for t in traits):
+            for d in dyn:
+                if d["mech"] == "obs" and c.random() < 0.5:
+                    d["trait"] = None          # observe(handler, "*")
+                if d["mech"] == "otc" and d["trait"] is None and d["arity"] < 2:
+                    # (an all-trait handler also hears 'trait_added' when a name comes
+                    # into being; only signatures that receive the name can tell)
+                    d["arity"] = 2 + d["arity"]
+        ntr = len(traits)
         ctor = []
         for _ in range(c.choice([0, 0, 1, 2])):
             ti = c.randrange(ntr)
@@ -275,9 +288,11 @@ class Prop:
         ns = {}
         names = [t["name"] for t in cfg["traits"]]
         shared_src = {t["same_as"] for t in cfg["traits"] if "same_as" in t}
+        if any(t.get("wild") for t in cfg["traits"]):
+            ns["w_"] = Any()
         for ti, t in enumerate(cfg["traits"]):
             k = t["kind"]
-            if "same_as" in t:
+            if "same_as" in t or t.get("wild"):
                 continue
             if ti in shared_src:
                 # a ready-made definition object (as `Color`, `Font`, `Trait(...)` constants
@@ -379,6 +394,8 @@ class Prop:
         obs_exc = []
 
         def H(hid, name, old, new, obj=MISSING, origin=None):
+            if name == "trait_added":
+                return        # (the all-trait handlers also hear of names coming into being)
             rec = {"h": hid, "origin": sched.cur_origin() if origin is None else origin,
                    "name": name, "old": old, "new": new, "obj": obj,
                    "deferred": sched.origin is not None, "async": origin is not None}
@@ -484,8 +501,12 @@ class Prop:
                 items = [(ti % len(traits), pool[vi % len(pool)]) for ti, vi in op["items"]]
                 seen = set()
                 items = [x for x in items if not (x[0] in seen or seen.add(x[0]))]
-                kwargs = {traits[ti]["name"]: v for ti, v in items}
                 quiet = op.get("quiet")
+                if quiet:
+                    # (a name brought into being while notifications are off is not
+                    # announced either: observers of '*' would be out of step by design)
+                    items = [x for x in items if not traits[x[0]].get("wild")]
+                kwargs = {traits[ti]["name"]: v for ti, v in items}
                 if quiet == "trait_setq":
                     _, e = sut(lambda: obj.trait_setq(**kwargs))
                 elif quiet:
@@ -784,6 +805,8 @@ class Prop:
     @staticmethod
     def register(obj, traits, d, handler, remove):
         name = None if d["trait"] is None else traits[d["trait"]]["name"]
+        if name is None and d["mech"] != "otc":
+            name = "*"
         if d["mech"] == "otc":
             obj.on_trait_change(handler, name, remove=remove, dispatch=d["dispatch"],
                                 priority=d.get("priority", False))
